@@ -279,7 +279,7 @@ func init() {
 		}
 		ctx.Count("exhaustive_short_sequences", int64(idx))
 		// long random sequences
-		nr := ctx.N(1500, 150000)
+		nr := ctx.N(12000, 300000)
 		for i := 0; i < nr; i++ {
 			sk := pick(r, "hwmon", "file", "file")
 			c := &c08Case{Sensor: sk, Window: pick(r, 1, 2, 3, 5, 10, 10, 50, 100, 1+r.Intn(100)), Init: c08Val(r, sk)}
@@ -301,7 +301,7 @@ func init() {
 			ctx.SampleKind("random", map[string]interface{}{"kind": "random", "sensor": sk, "window": c.Window, "init": c.Init, "first": c.Seq[:8]})
 			checkC08(ctx, rigs[sk], c)
 		}
-		nc := ctx.N(40, 2000)
+		nc := ctx.N(160, 4000)
 		for i := 0; i < nc; i++ {
 			c := &c08Case{Sensor: "cmd", Window: pick(r, 1, 2, 10, 100), Init: c08Val(r, "cmd")}
 			kinds := c08Kinds("cmd")
